@@ -296,11 +296,12 @@ fn both_orders(n: usize, edges: &[(usize, usize)], out: &mut DOut) {
     check_detector_case(n, &rev, out);
 }
 /// every digraph without self-loops on exactly the index set 0..n (isolated nodes simply do not appear)
-fn part_d_exhaustive(n: usize) -> DOut {
+fn part_d_exhaustive(n: usize, max_edges: u32) -> DOut {
     let ps = pairs(n);
     let total: u64 = 1 << ps.len();
     (0..total)
         .into_par_iter()
+        .filter(|mask| mask.count_ones() <= max_edges)
         .fold(DOut::default, |mut out, mask| {
             let edges: Vec<(usize, usize)> = ps.iter().enumerate().filter(|(i, _)| mask >> i & 1 == 1).map(|(_, e)| *e).collect();
             both_orders(n, &edges, &mut out);
@@ -686,6 +687,7 @@ fn part_s(depth: usize) -> SeqOut {
     let mut out = SeqOut { states: 1, ..Default::default() };
     for _ in 0..depth {
         type R = (Vec<SOp>, String, Option<(String, String)>, [u64; 4]);
+        // counters: stale index seen in the new state; grants / refusals / expiries caused by the last operation
         let results: Vec<R> = frontier
             .par_iter()
             .flat_map_iter(|hist| {
@@ -693,12 +695,14 @@ fn part_s(depth: usize) -> SeqOut {
                 for op in &alpha {
                     let (mut st, r) = s_replay(hist);
                     assert!(matches!(r, Ok(true)), "frontier history must replay");
+                    let before = [st.grants, st.refusals, st.expiries];
+                    st.stale = 0;
                     let r = s_apply(&mut st, op);
                     let mut h2 = hist.clone();
                     h2.push(op.clone());
                     match r {
                         Ok(false) => {}
-                        Ok(true) => v.push((h2, s_canon(&st), None, [st.stale, st.grants, st.refusals, st.expiries])),
+                        Ok(true) => v.push((h2, s_canon(&st), None, [st.stale, st.grants - before[0], st.refusals - before[1], st.expiries - before[2]])),
                         Err(e) => v.push((h2, String::new(), Some(e), [0; 4])),
                     }
                 }
@@ -715,12 +719,12 @@ fn part_s(depth: usize) -> SeqOut {
                 }
                 continue;
             }
+            out.grants += c[1];
+            out.refusals += c[2];
+            out.expiries += c[3];
             if seen.insert(key) {
                 out.states += 1;
                 out.stale_index_observations += u64::from(c[0] > 0);
-                out.grants += c[1];
-                out.refusals += c[2];
-                out.expiries += c[3];
                 out.deepest = hist.clone();
                 next.push(hist);
             }
@@ -919,7 +923,7 @@ fn k_apply(st: &mut KState, op: &KOp) -> Result<bool, (String, String)> {
     check_graph_obs(st.co.wait_graph(), &st.ids).map_err(|(s, m)| (s.replace("c12:graph", "c12:coord:graph"), m))?;
     for t in 0..2u8 {
         if st.finished[t as usize] {
-            absent_from_graph(st.co.wait_graph(), st.ids[t as usize], &st.ids).map_err(|(s, m)| (s.replace("c12:graph:", "c12:coord:wait-graph:"), m.replace(&format!("tx {}", st.ids[t as usize]), &format!("transaction {}", ["A", "B"][t as usize]))))?;
+            absent_from_graph(st.co.wait_graph(), st.ids[t as usize], &st.ids).map_err(|(s, m)| (s.replace("c12:graph:", "c12:coord:wait-graph:"), st.ids.iter().enumerate().fold(m, |m, (i, id)| m.replace(&id.to_string(), ["A", "B"][i]))))?;
         }
     }
     Ok(true)
@@ -935,6 +939,7 @@ struct KOut {
     distinct_end_states: BTreeSet<String>,
     violations: Vec<Viol>,
     viol_total: u64,
+    by_signature: BTreeMap<String, u64>,
     sample: Vec<KOp>,
 }
 impl KOut {
@@ -947,6 +952,9 @@ impl KOut {
         self.finishes += o.finishes;
         self.distinct_end_states.extend(o.distinct_end_states);
         self.viol_total += o.viol_total;
+        for (k, v) in o.by_signature {
+            *self.by_signature.entry(k).or_default() += v;
+        }
         for v in o.violations {
             // keep the shortest reproductions
             self.violations.push(v);
@@ -959,7 +967,7 @@ impl KOut {
             }
         }
         self.violations = kept;
-        if o.sample.len() > self.sample.len() {
+        if !o.sample.is_empty() && (self.sample.is_empty() || o.sample.len() < self.sample.len()) {
             self.sample = o.sample;
         }
         self
@@ -984,21 +992,21 @@ fn k_dfs(hist: &mut Vec<KOp>, depth: usize, alpha: &[KOp], out: &mut KOut) {
             ok &= matches!(k_apply(&mut st, h), Ok(true));
         }
         assert!(ok, "prefix must replay");
+        let before = [st.yes, st.conflicts, st.spurious_refusals, st.finishes];
         match k_apply(&mut st, op) {
             Ok(false) => {}
             Ok(true) => {
                 hist.push(op.clone());
                 out.sequences += 1;
                 out.steps += hist.len() as u64;
-                if hist.len() == depth {
-                    out.yes += st.yes;
-                    out.conflicts += st.conflicts;
-                    out.spurious_refusals += st.spurious_refusals;
-                    out.finishes += st.finishes;
-                    out.distinct_end_states.insert(k_end_state(&st));
-                    if out.sample.is_empty() && st.finishes > 0 && st.conflicts > 0 {
-                        out.sample = hist.clone();
-                    }
+                // what the last operation of this sequence did
+                out.yes += st.yes - before[0];
+                out.conflicts += st.conflicts - before[1];
+                out.spurious_refusals += st.spurious_refusals - before[2];
+                out.finishes += st.finishes - before[3];
+                out.distinct_end_states.insert(k_end_state(&st));
+                if st.finishes > 0 && st.conflicts > 0 && (out.sample.is_empty() || hist.len() < out.sample.len()) {
+                    out.sample = hist.clone();
                 }
                 k_dfs(hist, depth, alpha, out);
                 hist.pop();
@@ -1008,6 +1016,7 @@ fn k_dfs(hist: &mut Vec<KOp>, depth: usize, alpha: &[KOp], out: &mut KOut) {
                 out.sequences += 1;
                 out.steps += hist.len() as u64;
                 out.viol_total += 1;
+                *out.by_signature.entry(sig.clone()).or_default() += 1;
                 out.violations.push((sig, format!("after {hist:?}: {msg}"), json!({"part": "K", "ops": hist.clone(), "transactions": "0 = A (shards 0,1), 1 = B (shard 0); key sets 0={a} 1={b} 2={a,b}"})));
                 *out = std::mem::take(out).merge(KOut::default());
                 hist.pop();
@@ -1040,10 +1049,7 @@ fn part_k(depth: usize) -> KOut {
             out
         })
         .reduce(KOut::default, KOut::merge);
-    // `top` counted end states at depth 2 only for its own bookkeeping; keep its violations and counts
-    let mut t = top.merge(rest);
-    t.distinct_end_states.retain(|_| true);
-    t
+    top.merge(rest)
 }
 
 // ------------------------------------------------------------------------------------------------
@@ -1216,19 +1222,33 @@ fn norm_res(r: &TRes) -> String {
 }
 type Exec = (Vec<Body>, Box<dyn FnOnce(&RunResult) -> Verdict>);
 
+/// State is built on a fresh, identically seeded OS thread so that every execution of a program
+/// sees the same HashMap seeds (std caches its hash keys per thread) — required for replay.
+fn on_fresh_thread<T: Send + 'static>(f: impl FnOnce() -> T + Send + 'static) -> T {
+    std::thread::spawn(move || {
+        env::set_thread_seed(1000);
+        f()
+    })
+    .join()
+    .expect("setup thread")
+}
 fn mk_lm(p: &Program) -> Exec {
     env::clock_reset();
-    let ctx = Arc::new(LmCtx { lm: LockManager::with_default_timeout(Duration::from_millis(TIMEOUT_MS)), g: WaitForGraph::new(), handles: Mutex::new(BTreeMap::new()), hist: Mutex::new(vec![]) });
-    let mut init = RefTable::default();
-    let mut pre_bad = None;
-    for op in &p.pre {
-        let res = lm_exec(&ctx, op);
-        let ev = Ev { thread: 99, op: op.clone(), call: 0, ret: 0, res };
-        match lin_step(&init, &ev) {
-            Some(r) => init = r,
-            None => pre_bad = Some(format!("{ev:?}")),
+    let pre = p.pre.clone();
+    let (ctx, init, pre_bad) = on_fresh_thread(move || {
+        let ctx = Arc::new(LmCtx { lm: LockManager::with_default_timeout(Duration::from_millis(TIMEOUT_MS)), g: WaitForGraph::new(), handles: Mutex::new(BTreeMap::new()), hist: Mutex::new(vec![]) });
+        let mut init = RefTable::default();
+        let mut pre_bad = None;
+        for op in &pre {
+            let res = lm_exec(&ctx, op);
+            let ev = Ev { thread: 99, op: op.clone(), call: 0, ret: 0, res };
+            match lin_step(&init, &ev) {
+                Some(r) => init = r,
+                None => pre_bad = Some(format!("{ev:?}")),
+            }
         }
-    }
+        (ctx, init, pre_bad)
+    });
     let mut bodies: Vec<Body> = vec![];
     for (t, ops) in p.threads.iter().enumerate() {
         let (ctx, ops) = (ctx.clone(), ops.clone());
@@ -1339,12 +1359,6 @@ fn co_exec(c: &CoCtx, op: &TOp) -> TRes {
         _ => unreachable!("LockManager operation in a coordinator program"),
     }
 }
-fn op_tx(op: &TOp) -> Option<u8> {
-    match op {
-        TOp::HandlePrepare { tx, .. } | TOp::Vote { tx, .. } | TOp::Finish { tx } | TOp::Abort { tx } => Some(*tx),
-        _ => None,
-    }
-}
 /// quiescent verdict of one coordinator execution
 fn check_co(c: &CoCtx, evs: &[Ev]) -> (String, Option<String>) {
     let n = c.ids.len();
@@ -1419,14 +1433,26 @@ fn check_co(c: &CoCtx, evs: &[Ev]) -> (String, Option<String>) {
 }
 fn mk_co(p: &Program) -> Exec {
     env::clock_reset();
-    let co = new_coordinator();
-    let ids: Vec<u64> = p.txs.iter().map(|parts| co.begin(&"n1".to_string(), parts).expect("begin").tx_id).collect();
-    let ctx = Arc::new(CoCtx { co, ids, flight: Mutex::new(BTreeMap::new()), hist: Mutex::new(vec![]) });
-    for (i, op) in p.pre.iter().enumerate() {
-        let res = co_exec(&ctx, op);
-        let base = -1000 + 2 * i as i64;
-        ctx.hist.lock().unwrap().push(Ev { thread: 99, op: op.clone(), call: base, ret: base + 1, res });
-    }
+    let (txs, pre) = (p.txs.clone(), p.pre.clone());
+    let ctx = on_fresh_thread(move || {
+        let co = new_coordinator();
+        // generate_tx_id keeps a process-wide same-millisecond counter: give every id its own millisecond
+        let _ = tensor_chain::generate_tx_id();
+        let ids: Vec<u64> = txs
+            .iter()
+            .map(|parts| {
+                env::clock_advance_ms(1);
+                co.begin(&"n1".to_string(), parts).expect("begin").tx_id
+            })
+            .collect();
+        let ctx = Arc::new(CoCtx { co, ids, flight: Mutex::new(BTreeMap::new()), hist: Mutex::new(vec![]) });
+        for (i, op) in pre.iter().enumerate() {
+            let res = co_exec(&ctx, op);
+            let base = -1000 + 2 * i as i64;
+            ctx.hist.lock().unwrap().push(Ev { thread: 99, op: op.clone(), call: base, ret: base + 1, res });
+        }
+        ctx
+    });
     env::clock_advance_ms(p.pre_advance);
     let mut bodies: Vec<Body> = vec![];
     for (t, ops) in p.threads.iter().enumerate() {
@@ -1647,8 +1673,9 @@ fn main() {
     let thorough = rep.thorough();
     let bound = if thorough { 3 } else { 2 };
     let (s_depth, k_depth) = if thorough { (7, 6) } else { (5, 5) };
+    let max5 = if thorough { 20 } else { 6 };
     rep.rule(&format!(
-        "D: every digraph without self-loops on 2..5 transactions (2^20 + smaller), each built through add_wait in canonical and reversed insertion order (+ rings / paths / two rings with every single chord on 6-8 transactions, not exhaustive): detect_cycles non-empty <=> transitive closure has a cycle, every reported cycle is a directed cycle, would_create_cycle <=> reachability for every ordered pair, DeadlockDetector::detect non-empty <=> cyclic and victim in its cycle for 4 policies. \
+        "D: every digraph without self-loops on 2..4 transactions and every one on 5 transactions with <= {max5} edges (20 = all 2^20), each built through add_wait in canonical and reversed insertion order (+ rings / paths / two rings with every single chord on 6-8 transactions, not exhaustive): detect_cycles non-empty <=> transitive closure has a cycle, every reported cycle is a directed cycle, would_create_cycle <=> reachability for every ordered pair, DeadlockDetector::detect non-empty <=> cyclic and victim in its cycle for 4 policies. \
          S: BFS over every sequence of <= {s_depth} operations of {{try_lock, try_lock_with_wait_tracking (3 txs x key sets a, b, ab), release, release_by_handle[_with_wait_cleanup] (latest/previous handle), cleanup_expired[_with_wait_cleanup], clock+600ms (timeout 1000ms), to_serializable->bitcode->from_serializable}} replayed on a fresh real LockManager+WaitForGraph, dedup on the real state modulo handle renaming/time shift; after every step the sequential lock table. \
          K: every sequence of <= {k_depth} coordinator operations {{handle_prepare, record_vote of the in-flight vote, commit, abort, clock+6s & cleanup_timeouts, release_orphaned_locks}} on 2 transactions (A: shards 0,1; B: shard 0) and keys a,b. \
          T: for each program (2-3 threads on one LockManager+WaitForGraph or one DistributedTxCoordinator) every schedule with <= {bound} preemptions (scheduling point = every parking_lot lock acquisition); LockManager level: brute-force linearizability against the sequential lock table + quiescent state; coordinator level: a finished transaction owns no key it was granted before finishing and is neither waiter nor holder in the wait-for graph, no grant while provably held, edges/reverse_edges mirror, detect_cycles <=> recorded edges, no deadlock. non-trivial = cyclic graphs + distinct sequential states + sequences with a finish + schedules with >= 1 preemption"
@@ -1661,15 +1688,16 @@ fn main() {
     let t0 = env::real_now_s();
     let lap = |what: &str| eprintln!("[c12] {what} done at {:.1}s", env::real_now_s() - t0);
     let mut d = DOut::default();
+    let max_edges_5 = if thorough { 20 } else { 6 };
     for n in 2..=5usize {
-        d = d.merge(part_d_exhaustive(n));
+        d = d.merge(part_d_exhaustive(n, if n == 5 { max_edges_5 } else { 20 }));
     }
     let small_cases = d.cases;
     d = d.merge(part_d_large());
     for (s, m, j) in &d.viol {
         rep.violation(s.clone(), m.clone(), j.clone());
     }
-    rep.part("D", json!({"graphs_x_orders_up_to_5_txs": small_cases, "graphs_x_orders_6_to_8_txs_not_exhaustive": d.cases - small_cases, "cyclic": d.cyclic, "acyclic": d.acyclic, "cycles_reported_by_detect_cycles": d.cycles_reported, "oracle_comparisons": d.evals, "add_wait_calls": d.add_waits, "distinct_(policy,victim)_pairs": d.distinct_victims.len(), "violating_comparisons": d.viol_total}));
+    rep.part("D", json!({"graphs_x_orders_up_to_5_txs": small_cases, "max_edges_on_5_txs": max_edges_5, "graphs_x_orders_6_to_8_txs_not_exhaustive": d.cases - small_cases, "cyclic": d.cyclic, "acyclic": d.acyclic, "cycles_reported_by_detect_cycles": d.cycles_reported, "oracle_comparisons": d.evals, "add_wait_calls": d.add_waits, "distinct_(policy,victim)_pairs": d.distinct_victims.len(), "violating_comparisons": d.viol_total}));
     rep.sample(json!({"part": "D", "n": 3, "edges_in_insertion_order": [[0, 1], [1, 2], [2, 0]], "note": "3-ring: detect_cycles = one cycle of length 3, victim inside for all policies"}));
     if d.cyclic == 0 || d.acyclic == 0 || d.distinct_victims.len() < 8 {
         rep.machinery("vacuous: detector part saw no cyclic / no acyclic graphs or too few victims");
@@ -1681,7 +1709,7 @@ fn main() {
     for (sig, m, j) in &s.violations {
         rep.violation(sig.clone(), m.clone(), j.clone());
     }
-    rep.part("S", json!({"depth": s_depth, "alphabet": s_alphabet().len(), "distinct_states": s.states, "new_states_per_level": s.per_level, "transitions": s.transitions, "grants_on_paths": s.grants, "refusals_on_paths": s.refusals, "expiries_on_paths": s.expiries, "states_with_stale_reverse_index_entries(info)": s.stale_index_observations, "violating_transitions": s.viol_total}));
+    rep.part("S", json!({"depth": s_depth, "alphabet": s_alphabet().len(), "distinct_states": s.states, "new_states_per_level": s.per_level, "transitions": s.transitions, "transitions_granting": s.grants, "transitions_refusing": s.refusals, "transactions_expired_by_cleanup_transitions": s.expiries, "states_with_stale_reverse_index_entries(info)": s.stale_index_observations, "violating_transitions": s.viol_total}));
     rep.sample(json!({"part": "S", "deepest_new_state_history": s.deepest}));
     if s.states < 200 || s.refusals == 0 || s.expiries == 0 {
         rep.machinery("vacuous: sequential lock-table part reached too few states / no refusal / no expiry");
@@ -1692,7 +1720,7 @@ fn main() {
     for (sig, m, j) in &k.violations {
         rep.violation(sig.clone(), m.clone(), j.clone());
     }
-    rep.part("K", json!({"depth": k_depth, "alphabet": k_alphabet().len(), "sequences": k.sequences, "steps_replayed": k.steps, "distinct_end_states": k.distinct_end_states.len(), "yes_votes": k.yes, "conflict_votes": k.conflicts, "conflict_votes_without_reference_holder(info)": k.spurious_refusals, "finishes": k.finishes, "violating_sequences_(not_extended)": k.viol_total}));
+    rep.part("K", json!({"depth": k_depth, "alphabet": k_alphabet().len(), "sequences": k.sequences, "steps_replayed": k.steps, "distinct_end_states": k.distinct_end_states.len(), "sequences_ending_in_a_yes_vote": k.yes, "sequences_ending_in_a_conflict_vote": k.conflicts, "conflict_votes_without_reference_holder(info)": k.spurious_refusals, "sequences_ending_in_a_finish": k.finishes, "violating_sequences_(not_extended)": k.viol_total, "violating_sequences_by_signature": k.by_signature}));
     rep.sample(json!({"part": "K", "ops": k.sample}));
     if k.sequences < 1000 || k.conflicts == 0 || k.finishes == 0 {
         rep.machinery("vacuous: coordinator sequence part");
